@@ -264,7 +264,12 @@ class SimA(Simulator):
                     later = back
             else:
                 c, u = conns.pop(rng.randrange(len(conns)))
-                ops.append(["disc", c])
+                if rng.random() < 0.3:
+                    # another browser watches the active-user lists and is slow to acknowledge a notification; meanwhile
+                    # (sometimes) an engine registers
+                    ops.append(["disc_slow", c, rng.choice([0.05, 0.3, 1.0]), rng.random() < 0.4])
+                else:
+                    ops.append(["disc", c])
             if later and rng.random() < 0.5:
                 ops += later
                 later = None
@@ -532,7 +537,7 @@ class SimA(Simulator):
                 pending_swap = True
             elif k == "saves":
                 await self._saves(w, op, res, step)
-            elif k in ("sub", "reg", "unreg", "disc"):
+            elif k in ("sub", "reg", "unreg", "disc", "disc_slow"):
                 await self._users(w, op, live, registered, res, step)
             elif k == "errorlog_check":
                 self._check_errorlog(w, eid(op[1]), res, step, cfg.get("reorder", False))
@@ -638,13 +643,45 @@ class SimA(Simulator):
             await ff.unregister_active_user(w.engine_ids[e], u)
             registered.discard((e, u))
             self._optional.discard((e, u))
-        elif k == "disc":
+        elif k in ("disc", "disc_slow"):
             c = op[1]
             if c not in live:
                 return
             gone = live.pop(c)
             try:
-                await w.publisher.on_disconnect(_Chan(c))
+                if k == "disc":
+                    await w.publisher.on_disconnect(_Chan(c))
+                else:
+                    from openpectus.aggregator.frontend_publisher import PubSubTopic
+                    lat = op[2]
+                    if not getattr(w, "observer", False):
+                        w.observer = True
+
+                        async def slow_ack(subscription, data):
+                            await asyncio.sleep(w.observer_latency)       # virtual time
+                        topics = [f"{i}/{PubSubTopic.ACTIVE_USERS}" for i in w.engine_ids.values() if i]
+                        if topics:
+                            await w.publisher.pubsub_endpoint.notifier.subscribe("observer-connection", topics, slow_ack)
+                    w.observer_latency = lat
+                    task = asyncio.ensure_future(w.publisher.on_disconnect(_Chan(c)))
+                    await asyncio.sleep(lat / 2)
+                    res.fault("slow_subscriber_acknowledgement")
+                    # the connection is closed: whatever another coroutine sees now must already be consistent
+                    for u in gone:
+                        if not is_live(u):
+                            for e, engine_id in w.engine_ids.items():
+                                ed = w.aggregator.get_registered_engine_data(engine_id) if engine_id else None
+                                if ed is not None and u in ed.active_users:
+                                    res.add("C37", "C37.user_listed_without_live_connection", "during_disconnect", step,
+                                            f"unit {e}: {u} is still listed {lat / 2:g} s after their last connection "
+                                            f"{c} closed (the disconnect handler is waiting for a subscriber)")
+                    if op[3]:
+                        # an engine registers while the handler is suspended
+                        msg = EM.RegisterEngineMsg(computer_name="late", uod_name="unit", uod_author_name="a",
+                                                   uod_author_email="a@b", uod_filename="f.py", location="loc",
+                                                   engine_version=_version(), secret="")
+                        await w.handlers.handle_RegisterEngineMsg(msg)
+                    await asyncio.wait_for(task, timeout=10 * lat + 5)
             except Exception as ex:
                 res.add("C37", "C37.disconnect_handler_raised", type(ex).__name__, step, repr(ex))
             for u in gone:
